@@ -135,19 +135,10 @@ func (p *Prog) verifyFunc(fn *ssa.Function, ct *Contract) (fx *Fx, err error) {
 	if len(fx.Returns) == 0 {
 		return fx, nil
 	}
-	var sts []*State
-	for _, r := range fx.Returns {
-		r.St.Top().Vals[resKey] = r.Res
-		sts = append(sts, r.St)
-	}
-	fin := mergeStates(sts, nil)
-	res := fin.Top().Vals[resKey]
-	delete(fin.Top().Vals, resKey)
+	exitFor := func(fin *State, res Val, suffix string) {
+	fx.exitSuffix = suffix
 	fx.Final = fin
 	fx.FinalRes = res
-	if ct == nil {
-		return fx, nil
-	}
 	vars := map[string]Val{}
 	for k, v := range fx.frameVarsAt(fin, nil) {
 		vars[k] = v // named local values as of function exit (for proof steps)
@@ -170,6 +161,9 @@ func (p *Prog) verifyFunc(fn *ssa.Function, ct *Contract) (fx *Fx, err error) {
 			bodyGhost[g] = t
 		}
 		set := map[string]bool{}
+		for _, g := range ct.GhostHavoc {
+			set[g] = true
+		}
 		for _, gs := range ct.GhostSets {
 			fin.Ghost[gs.Label] = coerceTo(p.elab(fx, gs.X, post).Scalar(), fin.Ghost[gs.Label].S)
 			set[gs.Label] = true
@@ -234,6 +228,37 @@ func (p *Prog) verifyFunc(fn *ssa.Function, ct *Contract) (fx *Fx, err error) {
 		v := p.elab(fx, &SExp{IsL: true, List: []*SExp{{Atom: "field"}, ff.List[1], ff.List[2]}}, post)
 		pv := p.elab(fx, ff.List[1], post)
 		fx.oblige(fin, "post", fmt.Sprintf("freshfield%d:%s", i+1, ff.List[2].Atom), Or(Eq(pv.L[0], IntConst(0)), p.isFresh(fx, v.L[0])), fn.Pos())
+	}
+	fx.exitSuffix = ""
+	}
+	if ct == nil {
+		return fx, nil
+	}
+	var fin *State
+	if ct.SplitReturns && len(fx.Returns) > 1 && len(fx.Returns) <= 12 {
+		// one set of exit obligations per return statement (no merged ite terms); ordinal = order of discovery
+		rets := fx.Returns
+		var pcs []*Term
+		for k, r := range rets {
+			fx.exitPos = r.Pos
+			pcs = append(pcs, r.St.PC)
+			exitFor(r.St, r.Res, fmt.Sprintf("@ret%d", k+1))
+			fin = r.St
+		}
+		fx.exitPos = token.NoPos
+		// vacuity guard over all return paths together
+		fin = fin.Clone()
+		fin.PC = Or(pcs...)
+	} else {
+		var sts []*State
+		for _, r := range fx.Returns {
+			r.St.Top().Vals[resKey] = r.Res
+			sts = append(sts, r.St)
+		}
+		fin = mergeStates(sts, nil)
+		res := fin.Top().Vals[resKey]
+		delete(fin.Top().Vals, resKey)
+		exitFor(fin, res, "")
 	}
 	if len(ct.Ensures) > 0 {
 		fx.oblige(fin, "canary", "exit", False(), fn.Pos())
